@@ -207,7 +207,7 @@ def run_wrap(case, ctx):
 
 def params(tier):
     if tier == 'quick':
-        return {'examples': 2500, 'wall': 80, 'case_timeout': 40}
+        return {'examples': 2500, 'wall': 120, 'case_timeout': 40}
 
     return {'examples': 20000, 'wall': 600, 'case_timeout': 60}
 
